@@ -45,6 +45,19 @@ def rebuild(g, mode, seed):
     cf = g.cell_faces.copy()
     fn = g.face_nodes.copy()
     tags = None
+    rs = np.random.RandomState(seed % (2 ** 31))
+    if mode == "renumber":
+        # permuted node / face / cell numbering: cf' = Pf cf Pc^T, fn' = Pn fn Pf^T
+        pf, pc, pn = (rs.permutation(g.num_faces), rs.permutation(g.num_cells),
+                      rs.permutation(g.num_nodes))
+        cf = sps.csc_matrix(cf.tocsr()[pf, :][:, pc])
+        fn = sps.csc_matrix(fn.tocsr()[pn, :][:, pf])
+        return pp.Grid(g.dim, g.nodes[:, pn].copy(), fn, cf, "rebuilt-renumber")
+    if mode == "dtypes":
+        # value types a caller may hand in: float / int8 signs, bool / float node incidences
+        cf = cf.astype(rs.choice([np.float64, np.int8, np.float32]))
+        fn = fn.astype(rs.choice([bool, np.float64, np.int32]))
+        return pp.Grid(g.dim, g.nodes.copy(), fn, cf, "rebuilt-dtypes")
     if mode in ("cf_csr", "cf_csr_unsorted", "both_csr_exttags"):
         cf = sps.csr_matrix(cf)
     if mode == "cf_csr_unsorted":
@@ -115,7 +128,11 @@ class C21(Prop):
         "one adjacent cell; the connection map is symmetric (for any incidence) and relates "
         "exactly the cells sharing a face (diagonal = cells that have a face); the vector "
         "divergence is the scalar one expanded per component and the scalar one is the "
-        "transpose of the incidence (for any incidence).  Tie: on every run the real queries "
+        "transpose of the incidence (for any incidence); the outcome of signs_and_cells is the same "
+        "for ANY sorting permutation in place of np.argsort (numpy's unstable sort), out-of-range "
+        "face numbers raise IndexError and negative ones wrap as in numpy; set_periodic_map stores a "
+        "valid map and clears exactly the listed faces, rejects every other map with ValueError "
+        "without storing it.  Tie: on every run the real queries "
         "are executed on Cartesian 1-3-D, tensor, structured triangle / tetrahedral grids, "
         "fracture-split md-grid subdomains (2-D/3-D hosts, fracture and intersection grids), "
         "point grids and extracted subgrids, as constructed and re-created through the public "
@@ -126,10 +143,10 @@ class C21(Prop):
         "Trusted: Coq kernel + vm_compute; the harness; scipy's sparse semantics as modelled "
         "(COO conversion order of a canonical CSC matrix, product structure, row slicing, kron "
         "index convention) — these are exercised by the tie only.  The theorems are about the "
-        "model; the implementation is covered on the generated grids.  Not modelled: face "
-        "indices out of range (IndexError in numpy), periodic maps, matrices with duplicate "
-        "stored coordinates.  numpy's default argsort is not stable; the model uses a stable "
-        "sort and the theorem shows the result does not depend on the face order at all.")
+        "model; the implementation is covered on the generated grids.  Not modelled: matrices with duplicate "
+        "stored coordinates or explicitly stored zeros; the exception raised for non-integer "
+        "periodic maps.  numpy's default argsort is not stable; the executed model uses a stable "
+        "sort, and C21_signs_and_cells_any_argsort proves the same outcome for every permutation.")
     technique = ("Coq proof (list induction, permutation/sortedness lemmas for the double argsort, "
                  "div/mod uniqueness for the Kronecker expansion) + vm_compute execution correspondence "
                  "on real grids")
@@ -140,15 +157,20 @@ class C21(Prop):
             "(connected or not); about 2/3 of the grids are re-created through the public constructor "
             "pp.Grid(dim, nodes, face_nodes, cell_faces, name) from copies of their matrices with "
             "cell_faces as csr (sorted, or built from shuffled coo with reversed in-row order) and/or "
-            "face_nodes as csr (tags then passed as external_tags), and every query plus the "
+            "face_nodes as csr (tags then passed as external_tags), with randomly permuted node / face / "
+            "cell numbering, or with other value dtypes (float64/float32/int8 signs, bool/float/int32 "
+            "node incidences), and every query plus the "
             "as-constructed tags are taken from the rebuilt grid; face lists for signs_and_cells: random permuted subsets of the "
             "one-cell faces, with streams for empty lists, duplicates and lists containing an "
-            "internal face (ValueError); divergence dims from {-1,0,1,2,3}; non-trivial = grid "
+            "internal face (ValueError), negative (wrapping) face numbers and numbers out of range "
+            "(IndexError); set_periodic_map with valid maps, a face number equal to / above num_faces, "
+            "negative numbers, empty maps, 1 or 3 rows, internal faces, with the state after a failed "
+            "call and an aliasing probe on the passed array; divergence dims from {-1,0,1,2,3}; non-trivial = grid "
             "with at least one internal face; distinct by (case, output)")
     trusted = ["scipy.sparse semantics as modelled on stored-entry lists (see level_note)",
                "integer-valued incidence data (+-1) stand for the int64/float matrices"]
-    assumptions = ["face indices passed to signs_and_cells_of_boundary_faces are in range",
-                   "cell_faces / face_nodes have no duplicate stored coordinates"]
+    assumptions = ["cell_faces / face_nodes have no duplicate stored coordinates",
+                   "set_periodic_map: the argument is a 2-D integer array (rows of face numbers)"]
 
     def __init__(self):
         self.stats = {}
@@ -231,8 +253,9 @@ class C21(Prop):
                                "negwrap", "negwrap", "oob", "oob_internal"])
             pmode = rng.choice(["valid", "valid", "valid", "nf", "too_big", "negative", "empty",
                                 "rows1", "rows3", "internal"])
-            storage = rng.choice(["asis"] * 7 + ["cf_csr"] * 6 + ["cf_csr_unsorted"] * 3
-                                 + ["fn_csr_exttags"] * 2 + ["both_csr_exttags"] * 2)
+            storage = rng.choice(["asis"] * 6 + ["cf_csr"] * 5 + ["cf_csr_unsorted"] * 3
+                                 + ["fn_csr_exttags"] * 2 + ["both_csr_exttags"] * 2
+                                 + ["renumber"] * 4 + ["dtypes"] * 3)
             yield {"grid": rec, "faces_mode": mode, "faces_seed": rng.randint(0, 2 ** 30),
                    "ddim": rng.choice([1, 1, 2, 2, 3, 3, 0, -1]), "storage": storage,
                    "pm_mode": pmode}
